@@ -106,6 +106,13 @@ fn c13_counts_trailing_space() {
     counts_one_sentence("\u{1}\u{4}", 2, true)
 }
 
+//@ c13_counts_inner_gap {"desc":"counts with ignore_space and an inner gap: the word after the spaces is counted against the nodes it was actually connected to (those ending before the gap)","bounds":"N=3 \"a<sp>b\"; dictionary S13, ignore_space","symbolic":"ids, costs, matrix","functions":["Worker::update_connid_counts","Lattice::add_connid_counts","ConnIdCounter::add"],"fs":2048,"unwind":8,"timeout":2400,"mem_gb":24}
+#[cfg(kani)]
+#[kani::proof]
+fn c13_counts_inner_gap() {
+    counts_one_sentence("\u{1}\u{4}\u{2}", 3, true)
+}
+
 //@ c13_empty_first {"desc":"an empty first line contributes nothing and does not panic","bounds":"history init,reset(\"\"),tokenize,update; dictionary S13","symbolic":"ids, costs, matrix","functions":["Worker::update_connid_counts","Lattice::add_connid_counts"],"fs":2048,"unwind":7,"timeout":900,"covers":"none"}
 #[cfg(kani)]
 #[kani::proof]
